@@ -22,17 +22,17 @@ def e1(profile, quick, thorough, chunks=2):
 
 
 PLAN = {
-    "C01": e1("C01", 24000, 400000),
-    "C02": e1("C02", 24000, 400000),
-    "C03": e1("C03", 24000, 400000),
-    "C04": e1("C04", 24000, 400000),
-    "C05": e1("C05", 24000, 400000),
-    "C06": e1("C06", 24000, 400000),
-    "C10": e1("C10", 24000, 400000),
+    "C01": e1("C01", 160000, 3200000),
+    "C02": e1("C02", 160000, 3200000),
+    "C03": e1("C03", 160000, 3200000),
+    "C04": e1("C04", 160000, 3200000),
+    "C05": e1("C05", 160000, 3200000),
+    "C06": e1("C06", 160000, 3200000),
+    "C10": e1("C10", 160000, 3200000),
     "C11": e1("C11", 160, 2400, chunks=4),
-    "C13": e1("C13", 24000, 400000),
-    "C15": e1("C15", 24000, 400000),
-    "C16": e1("C16", 24000, 400000),
+    "C13": e1("C13", 160000, 3200000),
+    "C15": e1("C15", 160000, 3200000),
+    "C16": e1("C16", 160000, 3200000),
     "C17": e1("C17", 1600, 24000, chunks=4),
 }
 
